@@ -463,7 +463,9 @@ def family_id(sig):
 
 def run(ctx):
     ctx.level = "proof"
-    ctx.lean_stage([], ["Verif.Props.C06"])
+    ctx.lean_stage([], ["Verif.Props.C06", "Verif.Props.TokenRules"])
+    import blocks
+    blocks.tokenrules(ctx)     # mdXXX_scan_iff / mdXXX_faithful_eq_spec: the faithful scan of the token rules = the documented condition
     full = space(ctx)
     if ctx.quick():
         sample = docs.sample(ctx.rng, full, 2000)
